@@ -469,7 +469,7 @@ func checkC11(c *gramCase, b *gram.Built, r *vstat.Run) outcome {
 
 func TestC11(t *testing.T) {
 	runProp(t, "C11", c11Rule, func(t *rapid.T, r *vstat.Run) {
-		o := gram.GenOpts{MaxProds: 5, MaxDepth: 4, TrapPercent: 15, PosStyles: true, Profiles: true, Parseables: true, NameElided: rapid.IntRange(0, 9).Draw(t, "named") == 0}
+		o := gram.GenOpts{MaxProds: 5, MaxDepth: 4, TrapPercent: 15, PosStyles: true, Profiles: true, Parseables: true, DeepEmbeds: true, NameElided: rapid.IntRange(0, 9).Draw(t, "named") == 0}
 		g := gram.GenGrammar(t, o)
 		b, msg := buildGrammar(g)
 		if msg != "" {
